@@ -133,34 +133,30 @@ Theorem C03_operator_builds : forall (V : Type) (bin : binop -> V -> V -> V) (bi
    exists a b, operand V bin bin_ok args x = Ok a /\ operand V bin bin_ok args y = Ok b /\ cmp_consts V ltb leb op a b = true).
 Proof. exact cmp_nodes_spec. Qed.
 
-(* two-link chains: (a ? b) op c is a ? b and pivot op c; pivot = greater operand of the first link for
-   < / <=, its lower operand for > / >= *)
-Theorem C03_chain2 : forall (V : Type) (bin : binop -> V -> V -> V) (bin_ok : binop -> V -> V -> bool)
-    (ltb leb : V -> V -> bool) (of_bool : bool -> V)
-    (args : nat -> option V) (first : assertion V) (op : cmpop) (p c : node V) (t : assertion V),
-  pivot_of V first op = Some p ->
-  arith_like V p || arith_like V c = true ->
-  chain V ltb leb first op c = Some t ->
-  (holds V bin bin_ok ltb leb of_bool args t = Ok true <->
-   holds V bin bin_ok ltb leb of_bool args first = Ok true /\
-   exists a b, operand V bin bin_ok args p = Ok a /\ operand V bin bin_ok args c = Ok b /\ cmp_consts V ltb leb op a b = true).
-Proof. exact chain2_spec. Qed.
+(* CHAINS OF ANY LENGTH (induction on how the chain was written; the code since 33cdc7f): the object the
+   operators return for ((x ? y) op c) op' d ... is true of the values iff every inequality written is --
+   each new operand compared with the greatest (< / <=) or lowest (> / >=) operand so far -- and it remembers
+   the ends of what was written *)
+Theorem C03_chain_all_links : forall (V : Type) (bin : binop -> V -> V -> V) (bin_ok : binop -> V -> V -> bool)
+    (ltb leb : V -> V -> bool) (of_bool : bool -> V) (args : nat -> option V) (r : recipe V),
+  rguard V r = true ->
+  exists t, denote V ltb leb r = Some (t, rends V r) /\
+            (holds V bin bin_ok ltb leb of_bool args t = Ok true <-> means V bin bin_ok ltb leb args r).
+Proof. exact chain_all_links. Qed.
 
-(* ABOUT THE CODE VARIANT of proposed_fixes/C03-chain-further (not the current code, whose three-link chains are
-   refuted in Witness.C03_chain3_refuted): once every assertion object knows the lowest and the greatest operand
-   of its chain, comparing a chain of any length again adds exactly the one inequality written *)
-Theorem C03_chain_further_fixed_variant : forall (V : Type) (bin : binop -> V -> V -> V) (bin_ok : binop -> V -> V -> bool)
+(* one more comparison on an assertion object of any length adds exactly the one inequality written *)
+Theorem C03_chain_further : forall (V : Type) (bin : binop -> V -> V -> V) (bin_ok : binop -> V -> V -> bool)
     (ltb leb : V -> V -> bool) (of_bool : bool -> V)
     (args : nat -> option V) (first : assertion V) (e e' : node V * node V) (op : cmpop) (c : node V) (t : assertion V),
   let p := match op with CLt | CLe => snd e | CGt | CGe => fst e end in
   arith_like V p || arith_like V c = true ->
-  chain_fixed V ltb leb first e op c = Some (t, e') ->
+  chain V ltb leb first e op c = Some (t, e') ->
   (holds V bin bin_ok ltb leb of_bool args t = Ok true <->
    holds V bin bin_ok ltb leb of_bool args first = Ok true /\
    exists a b, operand V bin bin_ok args p = Ok a /\ operand V bin bin_ok args c = Ok b /\ cmp_consts V ltb leb op a b = true) /\
   e' = match op with CLt | CLe => (fst e, c) | CGt | CGe => (c, snd e) end.
-Proof. exact chain_fixed_spec. Qed.
+Proof. exact chain_spec. Qed.
 
 Print Assumptions C03_levels_flat_partial.
 Print Assumptions C03_run_is_gate_partial.
-Print Assumptions C03_chain2.
+Print Assumptions C03_chain_all_links.
